@@ -91,7 +91,7 @@ __CPROVER_requires(NO_PROBLEM <= bstatus && bstatus <= INFEASIBLE)
  * cb / nrw are the ghost prefix counts of basic columns / nonbasic rows; their defining recurrence is instantiated by
  * the descriptor accessor at every index the code reads, and here at the ghost row */
 __CPROVER_requires(cb[0] == 0 && nrw[0] == 0 && cb[nc] == nrw[nr])
-__CPROVER_requires(GR ==> (0 <= nrw[g_r] && nrw[g_r + 1] == nrw[g_r] + (rowstat[g_r] < 0 ? 1 : 0) && nrw[g_r + 1] <= nrw[nr]))
+__CPROVER_requires(GR ==> (0 <= nrw[g_r] && nrw[g_r] <= g_r && nrw[g_r + 1] == nrw[g_r] + (rowstat[g_r] < 0 ? 1 : 0) && nrw[g_r + 1] <= nrw[nr]))
 __CPROVER_assigns(WRITER_GHOSTS)
 /* well-formed file: header, records <indicator> <column> [<row>], ENDATA */
 __CPROVER_ensures(g_malformed == 0 && g_header == 1 && g_endata == 1 && g_cur_kind == K_NONE)
